@@ -148,6 +148,24 @@ PoppedFinal == \A jy \in popped : cc[k][jy] = Ins[<<jy[2], jy[1], k>>]
 (* can use is present at the end (completeness up to the predictive filter  *)
 (* is implied by ResultCorrect for the start item)                          *)
 
+(* ---- next_token_weights: the backward pass over the waiting items of the last column ---- *)
+(* q(J, Y): the weight with which completing (J, Y) in the NEXT column completes (0, S) there, through items whose *)
+(* remaining body is exactly <<Y>> (unit_Ys); the recursion of _helper.  It ends because an item (I, X, <<Y>>) of   *)
+(* column J has I < J, or I = J and X -> Y is a unary rule of a unary-acyclic grammar.                              *)
+RECURSIVE QV(_, _)
+QV(J, Y) ==
+  IF J = 0 /\ Y = G.S THEN One(sr)
+  ELSE LET f == ic[J]
+           S2 == {it \in DOMAIN f : it[3] = <<Y>>}
+       IN SumOver(sr, S2, [it \in S2 |-> Mul(sr, f[it], QV(it[1], it[2]))])
+NextTokenWeights ==
+  LET f == ic[N] IN
+  [t \in T |-> LET S2 == {it \in DOMAIN f : it[3] = <<t>>}
+               IN SumOver(sr, S2, [it \in S2 |-> Mul(sr, f[it], QV(it[1], it[2]))])]
+(* the weight computed for a next token is the weight the parser assigns to the string extended by that token *)
+NextTokenIsExtension ==
+  phase = "done" => \A t \in T : NextTokenWeights[t] = Weight(sr, G, Append(Str, t))
+
 (* ---- behaviour output for replay into the real parser ---- *)
 (* state constraint that never prunes on good runs but reports and prunes   *)
 (* bad ones: a late push, or a wrong final result                           *)
